@@ -455,7 +455,8 @@ inline bool eq_int(char const* name, A obs, B exp, bool npos_aware = false)
     using L = long long;
     if ((L)obs == (L)exp) { return true; }
     char sym[96];
-    L d = (L)obs - (L)exp;
+    __int128 const dd = (__int128)(L)obs - (__int128)(L)exp; // the difference of two 64-bit values may not fit 64 bits
+    L d = dd > 2 ? 3 : (dd < -2 ? -3 : (L)dd);
     if (npos_aware && (L)obs == -1) {
         std::snprintf(sym, sizeof sym, "%s:npos-for-val", name);
     } else if (npos_aware && (L)exp == -1) {
